@@ -16,4 +16,4 @@ pub use exec::{
     active, begin_call, cell_access, cur_tid, end_call, guarded, note, set_abort_context, set_summary, summary,
     violation, yield_point, CallInfo, CancelToken, Kind, Step, Summary, Violation, MAXT, NSUM,
 };
-pub use explore::{Config, ExecResult, Explorer, Outcome, RunReport, SpinMode, Stats, System};
+pub use explore::{warmup, Config, ExecResult, Explorer, Outcome, RunReport, SpinMode, Stats, System};
